@@ -1851,7 +1851,12 @@ def _c20_pty_cases(chk, out, n):
             raise vlib.ToolError("the debugger's prompt never appeared on the pseudo terminal (twice): %r" % r["transcript"][-200:])
         evs = [{"ev": "init", "hist": [chars(h) for h in hist], "mode": mode}]
         for k in keys:
-            evs.append({"ev": "bkey", "key": k})
+            if k.get("w"):
+                evs.append({"ev": "bwire", "key": {"k": k["k"], "c": k["c"]}, "kind": k["w"]})
+            else:
+                evs.append({"ev": "bkey", "key": {"k": k["k"], "c": k["c"]}})
+            if k.get("rel"):
+                evs.append({"ev": "bwire", "key": {"k": k["k"], "c": k["c"]}, "kind": "release"})
             if k["k"] == "enter":
                 evs.append({"ev": "bdrain"})
         evs.append({"ev": "end", "kind": "pty", "history": [chars(h) for h in r["history"]] if r["history"] is not None else [["?"]],
